@@ -298,6 +298,16 @@ func (c *FnCtx) assignTo(st *State, lhs ast.Expr, v Val) {
 		case OpaqueVal:
 			// map store: not modelled (maps from make are non-nil)
 			c.eval(st, l.Index)
+		case SV:
+			kv, kok := c.eval(st, l.Index).(SV)
+			vv, vok := v.(SV)
+			id, isId := l.X.(*ast.Ident)
+			if b.S.K == KArray && kok && vok && isId && kv.S.K == KBV && vv.S.K == KBV {
+				n := SV{c.define("map", b.S, app("store", b.T, resize(kv.T, kv.S.W, 64, kv.Signed), resize(vv.T, vv.S.W, b.S.Elem.W, vv.Signed))), b.S, b.Signed}
+				st.env[c.prog.Info.ObjectOf(id)] = n
+				return
+			}
+			c.unsupportedf(l.Pos(), "index store on scalar")
 		default:
 			c.unsupportedf(l.Pos(), "index store on %T", base)
 		}
@@ -592,7 +602,7 @@ func (c *FnCtx) assignedIn(st *State, body ast.Node, extra ...ast.Node) (map[typ
 					}
 				}
 			}
-			if id, ok := s.Fun.(*ast.Ident); ok && id.Name == "copy" && len(s.Args) > 0 {
+			if id, ok := s.Fun.(*ast.Ident); ok && (id.Name == "copy" || id.Name == "delete") && len(s.Args) > 0 {
 				root(&ast.IndexExpr{X: s.Args[0]})
 			}
 			if key := c.calleeKey(s); key != "" {
@@ -945,6 +955,10 @@ func (c *FnCtx) loop(st *State, n int, spec *LoopSpec, node ast.Stmt, body ast.N
 	}
 	for _, u := range spec.Uses {
 		c.useLemma(head, u)
+	}
+	for _, a := range spec.Assumes {
+		c.assume(head, c.evalClause(head, a, nil))
+		c.assumptions[fmt.Sprintf("loop %d: assumed, not proved: %s", n, a.Text)] = true
 	}
 	var m0 string
 	var m0s []string
